@@ -41,13 +41,6 @@ TEXT = {
 }
 
 NOT_APPLICABLE = {
-    'C03': 'check under construction in this session (CONST-ARITH, SHAPE-PRODUCER); will be claimed once its rules are armed and triaged',
-    'C04': 'check under construction in this session (BACKEND-OP-TABLE)',
-    'C05': 'check under construction in this session (LEX-BOUNDS, FABRICATE-REPORTS)',
-    'C09': 'check under construction in this session (T-prc triage pending)',
-    'C10': 'check under construction in this session (SIG-KEY, UPDATE-ORDER, ERRORS-OVERWRITE)',
-    'C11': 'check under construction in this session (T-gc triage pending)',
-    'C17': 'check under construction in this session (heap rules)',
     'C07': 'exactness of the pattern usefulness algorithm is algorithmic correctness over an infinite data domain; no clause of it is visible in the shape of the code beyond what rustc\'s exhaustive match already enforces (DESIGN.md §5)',
     'C12': 'determinism under hash seeds/schedules asks for semantic equivalence of two emitted programs; hash-order provably does reach synthetic numbering by design, so a ban-hash-iteration lint would fire on correct code (DESIGN.md §5)',
     'C13': 'metamorphic relation between two checker runs on two programs; the decisions are value dependent (hint flow, first solution wins); no structural necessary condition in reach (DESIGN.md §5)',
